@@ -46,7 +46,7 @@ def rule_r1_r2(ctx: Ctx) -> None:
         wr = K.only(K.writer_runs(ctx, "_serialize_composite", s, K.value_for(s)), "writer of %s" % s.name)
         if wr.raised:
             raise AnalysisError("writer of %s raised %s" % (s.name, wr.raised))
-        rr = [r for r in K.reader_runs(ctx, "_deserialize_composite", s) if not r.raised]
+        rr = [r for r in K.complete_data_runs(ctx, "_deserialize_composite", s) if not r.raised]
         rd = K.only(rr, "reader of %s" % s.name)
         a, b = _w(wr.events, "w"), _w(rd.events, "r")
         ctx.count(2)
@@ -59,13 +59,13 @@ def rule_r1_r2(ctx: Ctx) -> None:
         ctx.check(vals == ["V_" + n for n in names] and isinstance(rd.result, dict) and list(rd.result) == names, "_serdes._(de)serialize_composite[StructureType %s]" % s.name, "values by field name, in field order", "every field's value is taken from / stored under the field's own name", where, {"written": vals, "read keys": list(rd.result) if isinstance(rd.result, dict) else rd.result}, rule="C06.R1", nontrivial=False)
     # ---- unions
     for u in S["unions"]:
-        rruns = K.reader_runs(ctx, "_deserialize_composite", u)
+        rruns = K.complete_data_runs(ctx, "_deserialize_composite", u)
         for i, f in enumerate(u.fields):
             wr = K.only(K.writer_runs(ctx, "_serialize_composite", u, {f.name: "V_" + f.name}), "writer of %s.%s" % (u.name, f.name))
             if wr.raised:
                 raise AnalysisError("writer of %s.%s raised %s" % (u.name, f.name, wr.raised))
             a = _w(wr.events, "w")
-            sel = [r for r in C.select_run(rruns, {"read": i}) if not r.raised]
+            sel = [r for r in C.select_run(rruns, {"read": i, "remaining": 1 << 20}) if not r.raised]
             rd = K.only(sel, "reader of %s with tag %d" % (u.name, i))
             b = _w(rd.events, "r")
             ctx.count(2)
@@ -102,7 +102,7 @@ def rule_r1_r2(ctx: Ctx) -> None:
             ctx.count(2)
             ctx.check(good and o_ev == want_outer and i_ev == want_inner, "_serdes.%s[DelimitedType %s]" % (fname, d.name), "outer: %s | inner: %s" % (C.show(o_ev), C.show(i_ev)), "the delimiter header is the byte length of the serialized inner object, which follows byte by byte", where, {"expected outer": C.show(want_outer), "expected inner": C.show(want_inner)}, rule="C06.R2")
         for fname, kw in (("_deserialize_composite", {}), ("deserialize", {"with_delimiter_header": True})):
-            rruns = K.reader_runs(ctx, fname, d, **kw)
+            rruns = K.complete_data_runs(ctx, fname, d, **kw)
             okr = [r for r in C.select_run(rruns, {"read": 0 if inner._kind_ == "UnionType" else 3, "remaining": 1 << 20}) if not r.raised]
             rd0 = okr[0] if okr else None
             if rd0 is None:
@@ -121,7 +121,7 @@ def rule_r1_r2(ctx: Ctx) -> None:
     for s in [S["delimited"][0], S["structures"][1]]:
         inner = s.inner_type if s._kind_ == "DelimitedType" else s
         wr = K.only(K.writer_runs(ctx, "serialize", s, K.value_for(inner)), "serialize of %s" % s.name)
-        rd = K.only([r for r in K.reader_runs(ctx, "deserialize", s) if not r.raised], "deserialize of %s" % s.name)
+        rd = K.only([r for r in K.complete_data_runs(ctx, "deserialize", s) if not r.raised], "deserialize of %s" % s.name)
         a = [e for e in C.normalize(wr.events) if e[0] != "NEW"]
         b = C.normalize(rd.events)
         strip = lambda evs: [(e[0],) + tuple(e[2:]) for e in evs]  # noqa: E731
@@ -140,8 +140,8 @@ def rule_r1_r2(ctx: Ctx) -> None:
         want = ([] if fixed else [("BITS", arr.length_field_type.bit_length, n)]) + [("EMIT", et, v) for v in value]
         ctx.count(2)
         ctx.check(a == want, "_serdes._serialize_array[%s]" % arr.name, C.show(a), "a fixed-length array is its elements, without a prefix" if fixed else "a variable-length array is its length prefix (the element count) followed by the elements, in order", where, {"expected": C.show(want)}, rule="C06.R2")
-        rruns = K.reader_runs(ctx, "_deserialize_array", arr)
-        sel = [r for r in C.select_run(rruns, {"read": n}) if not r.raised]
+        rruns = K.complete_data_runs(ctx, "_deserialize_array", arr)
+        sel = [r for r in C.select_run(rruns, {"read": n, "remaining": 1 << 20}) if not r.raised]
         rd = K.only(sel, "reader of %s" % arr.name)
         b = _w(rd.events, "r")
         if fixed:
@@ -171,7 +171,7 @@ def rule_r1_r2(ctx: Ctx) -> None:
         if good:
             fmt = next(iter(fmts))
             good = fmt.startswith("<") and fmt[1:] in ("e", "f", "d") and _struct.calcsize(fmt) * 8 == width and [ev[2][2] for ev in evs] == list(range(width // 8))
-        rd = K.only([r for r in K.reader_runs(ctx, "_deserialize_primitive", ft) if not r.raised], "reader of float%d" % width)
+        rd = K.only([r for r in K.complete_data_runs(ctx, "_deserialize_primitive", ft) if not r.raised], "reader of float%d" % width)
         revs = _w(rd.events, "r")
         res = rd.result
         good_r = revs == [("BITS", 8)] * (width // 8) and isinstance(res, tuple) and res[0] == "UNPACKED" and res[1] in ("<e", "<f", "<d") and _struct.calcsize(res[1]) * 8 == width and res[2] == width // 8
@@ -258,7 +258,7 @@ def rule_r3(ctx: Ctx) -> None:
                         holder = C.type_sym(ctx, "FixedLengthArrayType", element_type=t, capacity=1, alignment_requirement=t.alignment_requirement, name="%s[1]" % c.name)
                         hv = [a_value(t)]
                     fname = "_serialize_array" if is_writer else "_deserialize_array"
-                runs = K.writer_runs(ctx, fname, holder, hv) if is_writer else K.reader_runs(ctx, fname, holder)
+                runs = K.writer_runs(ctx, fname, holder, hv) if is_writer else K.complete_data_runs(ctx, fname, holder)
                 ctx.count()
                 good_runs = [r for r in runs if not r.raised]
                 if not good_runs or not all(any(ev[0] in ("BITS", "EMIT", "HEADER", "SUBREADER", "ALIGN", "CALL") for ev in r.events) for r in good_runs):
@@ -324,9 +324,9 @@ def rule_r4(ctx: Ctx) -> None:
     for kind, signed in (("SignedIntegerType", True), ("UnsignedIntegerType", False)):
         for n in (2, 7, 8, 33, 64):
             t = C.type_sym(ctx, kind, name="%s%d" % (kind, n), bit_length=n, cast_mode=SAT, alignment_requirement=1)
-            runs = K.reader_runs(ctx, "_deserialize_primitive", t)
+            runs = K.complete_data_runs(ctx, "_deserialize_primitive", t)
             for raw in sorted({0, 1, 2 ** (n - 1) - 1, 2 ** (n - 1), 2 ** (n - 1) + 1, 2**n - 1}):
-                sel = C.select_run(runs, {"read": raw})
+                sel = C.select_run(runs, {"read": raw, "remaining": 1 << 20})
                 r = K.only(sel, "reader of %s with raw %d" % (t.name, raw))
                 try:
                     got = C.eval_abs(C._subst_atoms(C._x(r.result), {"read": raw}), {})
@@ -344,7 +344,7 @@ def rule_r4(ctx: Ctx) -> None:
     ctx.check(all(outs[v] == [("BITS", 1, 1 if v else 0)] for v in outs), SD + "._serialize_primitive[BooleanType]", str({repr(k): v for k, v in outs.items()})[:120], "a boolean is one bit: 1 for truthy, 0 for falsy", where)
     vt = C.type_sym(ctx, "VoidType", name="void5", bit_length=5, alignment_requirement=1)
     wv = _w(K.only(K.writer_runs(ctx, "_serialize_primitive", vt, None), "void").events, "w", True)
-    rv = K.only(K.reader_runs(ctx, "_deserialize_primitive", vt), "void")
+    rv = K.only(K.complete_data_runs(ctx, "_deserialize_primitive", vt), "void")
     ctx.check(wv == [("BITS", 5, 0)] and _w(rv.events, "r") == [("BITS", 5)] and rv.result is None, SD + "._(de)serialize_primitive[VoidType]", C.show(wv), "padding is written as zero bits and skipped on reading", where, nontrivial=False)
     # floats: what is handed to the IEEE 754 packer for in-range, out-of-range, non-finite and not-representable-as-float inputs
     import math
